@@ -2839,7 +2839,17 @@ def groupby_reduce(
             preferred_method = "map-reduce"
             chunks_cohorts = {}
 
+        user_method = method
         method = _choose_method(method, preferred_method, agg, by_, nax)
+
+        if (
+            user_method is None
+            and reindex.blockwise is True
+            and method in ["blockwise", "cohorts"]
+            and agg.chunk[0] is not None
+        ):
+            # reindex=True was requested: it is only compatible with 'map-reduce'
+            method = "map-reduce"
 
         if method == "cohorts" and not chunks_cohorts:
             # none of the requested labels occurs in any block: there is nothing to split into cohorts
